@@ -230,6 +230,134 @@ def main():
     except Exception as ex:  # noqa: BLE001
         res.notes.append(f"HyperElastic names skipped: {type(ex).__name__}: {ex}")
 
+    # ---------------- PhaseField, InElastic (2D / 3D): names, components vs vector / tensor results, energy ----------------
+    def tensor_components(simu, tag, dim, ident):
+        names = simu.Results_Available()
+        Nn = simu.mesh.Nn
+        U = np.asarray(simu.displacement).reshape(Nn, -1)
+        for axn, k in AX.items():
+            if "u" + axn in names:
+                got = np.asarray(simu.Result("u" + axn, nodeValues=True)).ravel()
+                res.case((tag, dim, "u" + axn))
+                if k >= U.shape[1] or got.shape != (Nn,) or np.abs(got - U[:, k]).max() > 1e-12:
+                    res.fail(f"sim={tag} component=u{axn}", f"Result('u{axn}') is not component {k} of the displacement (dim {dim})", ident)
+        KK = K2 if dim == 2 else K3
+        for letter, tname in (("S", "Stress"), ("E", "Strain")):
+            if tname not in names:
+                continue
+            try:
+                T = np.asarray(simu.Result(tname, nodeValues=False))
+            except Exception:  # noqa: BLE001
+                continue     # reported by check_names
+            for cn, k in KK.items():
+                if letter + cn not in names:
+                    continue
+                try:
+                    got = np.asarray(simu.Result(letter + cn, nodeValues=False)).ravel()
+                except Exception:  # noqa: BLE001
+                    continue
+                res.case((tag, dim, letter + cn))
+                if T.ndim != 2 or k >= T.shape[1] or np.abs(got - T[:, k]).max() > 1e-10 * (1 + np.abs(T).max()):
+                    res.fail(f"sim={tag} component={letter}{cn}", f"Result('{letter}{cn}') differs from column {k} of Result('{tname}') (dim {dim})", ident)
+            if letter + "vm" in names and T.ndim == 2:
+                got = np.asarray(simu.Result(letter + "vm", nodeValues=False)).ravel()
+                coarse = vm(T, dim)     # von Mises of the element mean: only an upper-level sanity bound (Jensen): mean of norms >= norm of mean
+                res.case((tag, dim, letter + "vm"))
+                if got.shape != coarse.shape or np.any(got < coarse - 1e-9 * (1 + np.abs(coarse).max())):
+                    res.fail(f"sim={tag} result={letter}vm", f"Result('{letter}vm') is below the von Mises norm of the element-mean tensor (the mean of a norm cannot be)", ident)
+
+    for dim, et in ((2, "QUAD4"), (2, "TRI6"), (3, "HEXA8"), (3, "TETRA4")):
+        if args.tier == "quick" and et in ("TRI6", "TETRA4"):
+            continue
+        meshp = M.mesh_of(et)
+        npf = meshp.Nn * dim
+        try:
+            matp = Models.Elastic.Isotropic(dim, E=210.0, v=0.3, planeStress=True, thickness=1.0) if dim == 2 else Models.Elastic.Isotropic(3, E=210.0, v=0.3)
+            pf = Simulations.PhaseField(meshp, Models.PhaseField(matp, rng.choice(["Amor", "Miehe", "Bourdin"]), "AT2", 0.5, 0.4))
+            pf._Set_solutions(pf.ProblemTypes.elastic, np.array([dy(rng, -0.02, 0.02, 512) for _ in range(npf)]))
+            pf._Set_solutions(pf.ProblemTypes.damage, np.array([abs(dy(rng, 0, 0.5, 64)) for _ in range(meshp.Nn)]))
+            ident = dict(sim="PhaseField", elemType=et, dim=dim)
+            res.count(f"phasefield:{et}")
+            check_names(pf, "PhaseField", ident)
+            tensor_components(pf, "PhaseField", dim, ident)
+            up = np.asarray(pf.displacement)
+            Ku = pf.Get_K_C_M_F(pf.ProblemTypes.elastic)[0]
+            res.case(("PhaseField", et, "Wdef"))
+            Wp = pf.Result("Wdef")
+            if abs(Wp - 0.5 * up @ (Ku @ up)) > 1e-9 * (1 + abs(Wp)):
+                res.fail("sim=PhaseField Wdef", f"Wdef = {Wp!r} but 1/2 u'K(d)u = {0.5 * up @ (Ku @ up)!r}", ident)
+        except Exception as ex:  # noqa: BLE001
+            res.fail(f"sim=PhaseField raises dim={dim}", f"{type(ex).__name__}: {str(ex)[:150]}", dict(sim="PhaseField", elemType=et))
+        try:
+            beh = Models.InElastic.Behavior(dim, Models.Elastic.Isotropic(3, E=100.0, v=0.3), hardening=Models.InElastic.IsotropicHardening.Linear(20.0),
+                                            yieldSurface=Models.InElastic.Yield.VonMises(1.0), thickness=1.0)
+            ie = Simulations.InElastic(meshp, beh)
+            left = meshp.Nodes_Conditions(lambda x, y, z: x == meshp.coord[:, 0].min())
+            right = meshp.Nodes_Conditions(lambda x, y, z: x == meshp.coord[:, 0].max())
+            ie.add_dirichlet(left, [0.0] * dim, ["x", "y", "z"][:dim])
+            ie.add_dirichlet(right, [0.05, 0.01] + ([0.02] if dim == 3 else []), ["x", "y", "z"][:dim])
+            ie.Solve()
+            ie.Save_Iter()
+            ident = dict(sim="InElastic", elemType=et, dim=dim)
+            res.count(f"inelastic:{et}")
+            check_names(ie, "InElastic", ident)
+            tensor_components(ie, "InElastic", dim, ident)
+        except Exception as ex:  # noqa: BLE001
+            res.fail(f"sim=InElastic raises dim={dim}", f"{type(ex).__name__}: {str(ex)[:150]}", dict(sim="InElastic", elemType=et))
+
+    # ---------------- Beam (1D / 2D / 3D, Euler-Bernoulli and Timoshenko): every advertised name ----------------
+    from EasyFEA import Mesher as _Mesher, ElemType as _ET
+    from EasyFEA.Geoms import Line as _Line, Point as _Pt, Domain as _Dom
+    for bdim in (1, 2, 3):
+        for timo in (False, True):
+            for bet in (["SEG2", "SEG3"] if args.tier == "quick" else ["SEG2", "SEG3", "SEG4", "SEG5"]):
+                ident = dict(sim="Beam", dim=bdim, timoshenko=timo, elemType=bet)
+                try:
+                    line = _Line(_Pt(0, 0, 0), _Pt(2.0, 1.0 if bdim > 1 else 0.0, 0.5 if bdim > 2 else 0.0), 0.5)
+                    sec = _Mesher().Mesh_2D(_Dom(_Pt(0, 0), _Pt(0.1, 0.2), 0.05))
+                    beam = Models.Beam.Isotropic(bdim, line, sec, E=10.0, v=0.3)
+                    bmesh = _Mesher().Mesh_Beams([beam], _ET(bet))
+                    bs = Simulations.Beam(bmesh, Models.Beam.BeamStructure([beam]), useTimoshenko=timo)
+                    dofn = bs.Get_dof_n()
+                    ub = np.array([dy(rng, -0.5, 0.5, 64) for _ in range(bmesh.Nn * dofn)])
+                    bs._Set_solutions(bs.problemType, ub.copy())
+                except Exception as ex:  # noqa: BLE001
+                    res.fail(f"sim=Beam raises dim={bdim}", f"{type(ex).__name__}: {str(ex)[:150]}", ident)
+                    continue
+                res.count(f"beam:{bdim}D:{'T' if timo else 'EB'}")
+                check_names(bs, f"Beam{bdim}D", ident)
+                names = bs.Results_Available()
+                Ub = ub.reshape(bmesh.Nn, dofn)
+                unk = bs.Get_unknowns()
+                for k, nm in enumerate(unk):
+                    rn = ("u" + nm) if nm in ("x", "y", "z") else nm
+                    if rn in names:
+                        got = np.asarray(bs.Result(rn, nodeValues=True)).ravel()
+                        res.case(("Beam", bdim, timo, bet, rn))
+                        if got.shape != (bmesh.Nn,) or np.abs(got - Ub[:, k]).max() > 1e-12:
+                            res.fail(f"sim=Beam component={rn}", f"Result('{rn}') is not component {k} of the beam unknowns {unk}", ident)
+                # internal forces / generalised strains / stresses vs the vector results they belong to
+                try:
+                    Eps = np.asarray(bs._Calc_Epsilon_e_pg(ub)).mean(1)
+                    Frc = np.asarray(bs._Calc_InternalForces_e_pg(bs._Calc_Epsilon_e_pg(ub))).mean(1)
+                    Sig = np.asarray(bs._Calc_Sigma_e_pg(bs._Calc_Epsilon_e_pg(ub))).mean(1)
+                except Exception as ex:  # noqa: BLE001
+                    res.notes.append(f"Beam {bdim}D vector results not available: {type(ex).__name__}")
+                    continue
+                layouts = {1: (["ux'"], ["N"], ["Sxx"]), 2: (["ux'", "rz'"], ["N", "Mz"], ["Sxx", "Syy", "Sxy"]),
+                           3: (["ux'", "rx'", "ry'", "rz'"], ["N", "Mx", "My", "Mz"], ["Sxx", "Syy", "Szz", "Syz", "Sxz", "Sxy"])}[bdim]
+                for vec, lay, what in ((Eps, layouts[0], "generalised strains [ux', rx', ry', rz']"), (Frc, layouts[1], "internal forces [N, Mx, My, Mz]"), (Sig, layouts[2], "beam stresses")):
+                    for k, nm in enumerate(lay):
+                        if nm not in names:
+                            continue
+                        try:
+                            got = np.asarray(bs.Result(nm, nodeValues=False)).ravel()
+                        except Exception:  # noqa: BLE001
+                            continue    # reported by check_names
+                        res.case(("Beam", bdim, timo, bet, nm))
+                        if got.shape != vec[:, k].shape or np.abs(got - vec[:, k]).max() > 1e-10 * (1 + np.abs(vec).max()):
+                            res.fail(f"sim=Beam component={nm}", f"Result('{nm}') differs from column {k} of the {what} (element means)", ident)
+
     # ---------------- correspondence ----------------
     lines = ["kinematic Elastic", "kinematic WeakForms", "components 2", "components 3"]
     pts = [[dy(rng, -2, 2) for _ in range(6)] for _ in range(4)]
